@@ -544,5 +544,91 @@ theorem loop_rev {d : DFA σ α} {κ : α → Int} {S : List α} {c : SuccCfg σ
       simp only [Bool.and_eq_true]
       exact ⟨⟨hs, ht.2⟩, ht.1⟩
 
+/-! ## the set-up part -/
+
+theorem cfgOK_of {d : DFA σ α} (hd : d.IsDict) (hnd : d.syms.Nodup) {key : α → Int} (hk : d.KeyInj key)
+    (reverse : Bool) {first last : α} (hf : (d.sortedSymbols key reverse).head? = some first)
+    (hl : (d.sortedSymbols key reverse).getLast? = some last) :
+    CfgOK d (dirKey key reverse) (d.sortedSymbols key reverse)
+      { coacc := d.digraph.reachable d.finals true, first := first,
+        symSucc := symbolSucc (d.sortedSymbols key reverse) last } := by
+  have hperm := sortedSymbols_perm d key reverse
+  have hsorted := sortedSymbols_sorted hnd hk reverse
+  have hSnd : (d.sortedSymbols key reverse).Nodup := hperm.nodup_iff.mpr hnd
+  have hlk := alookup_symbolSucc hSnd hl
+  refine ⟨?_, sorted_isFirst hsorted hf, ?_, fun q => mem_reachable_bwd hd, fun a => hperm.mem_iff⟩
+  · intro a ha b hb h
+    exact dirKey_inj hk reverse a (hperm.mem_iff.mp ha) b (hperm.mem_iff.mp hb) h
+  · intro a ha
+    rcases next_or_last _ a ha with ⟨l, b, r, hS⟩ | ⟨l, hS⟩
+    · left
+      refine ⟨b, hlk.1 l a b r hS, ?_⟩
+      have := hsorted
+      rw [hS] at this ⊢
+      exact sorted_isNext this
+    · right
+      refine ⟨hlk.2 l a hS, ?_⟩
+      have := hsorted
+      rw [hS] at this ⊢
+      exact sorted_isLast this
+
+/-- Shape of the loop variables before the first iteration. -/
+theorem successorsCore_setup {d : DFA σ α} (wf : d.WF) (hd : d.IsDict) (hnd : d.syms.Nodup)
+    (hne : d.syms ≠ []) {key : α → Int} (hk : d.KeyInj key) (input : Option (List α))
+    (hin : ∀ w0, input = some w0 → ∀ x ∈ w0, x ∈ d.syms) (o : SuccOpts) (fuel : Nat) :
+    ∃ (c : SuccCfg σ α) (s0 : SuccState σ α),
+      CfgOK d (dirKey key o.reverse) (d.sortedSymbols key o.reverse) c ∧
+      SInv d (d.sortedSymbols key o.reverse) s0 ∧
+      d.successorsCore (.ok true) d.digraph key input o fuel = succLoop d o c fuel s0 ∧
+      s0.chars.reverse = input.getD [] ∧
+      s0.cand = (match input, o.reverse with
+        | some _, true => none
+        | _, _ => some c.first) ∧
+      s0.shouldYield = (match input with
+        | none => true
+        | some _ => !o.strict) := by
+  have hperm := sortedSymbols_perm d key o.reverse
+  have hSne : d.sortedSymbols key o.reverse ≠ [] := by
+    intro h
+    rw [h] at hperm
+    exact hne hperm.symm.eq_nil
+  obtain ⟨first, hf⟩ : ∃ f, (d.sortedSymbols key o.reverse).head? = some f := by
+    cases h : d.sortedSymbols key o.reverse with
+    | nil => exact absurd h hSne
+    | cons x t => exact ⟨x, rfl⟩
+  obtain ⟨last, hl⟩ : ∃ l, (d.sortedSymbols key o.reverse).getLast? = some l := by
+    cases h : (d.sortedSymbols key o.reverse).getLast? with
+    | none => exact absurd (List.getLast?_eq_none_iff.mp h) hSne
+    | some l => exact ⟨l, rfl⟩
+  have cok := cfgOK_of hd hnd hk o.reverse hf hl
+  cases input with
+  | none =>
+    refine ⟨_, ⟨[some d.init], [], some first, true⟩, cok, ?_, ?_, rfl, ?_, rfl⟩
+    · exact ⟨StackOK.base, by simp, fun a ha => by cases ha; exact cok.first.mem⟩
+    · simp only [successorsCore, hl, hf]
+    · cases o.reverse <;> rfl
+  | some w0 =>
+    obtain ⟨hex, hst⟩ := stackOK_readStepwise wf w0
+    refine ⟨_, ⟨(d.readStepwise w0 true).1.reverse, w0.reverse,
+      (match o.reverse with | true => none | false => some first), !o.strict⟩, cok, ?_, ?_, ?_, ?_, rfl⟩
+    · refine ⟨hst, ?_, ?_⟩
+      · intro ch hch
+        exact hperm.mem_iff.mpr (hin w0 rfl ch (List.mem_reverse.mp hch))
+      · intro a ha
+        have hmem : first ∈ d.sortedSymbols key o.reverse := cok.first.mem
+        revert ha hmem
+        cases o.reverse <;> intro ha hmem
+        · cases ha; exact hmem
+        · cases ha
+    · simp only [successorsCore, hl, hf]
+      cases hrs : d.readStepwise w0 true with
+      | mk tr ex =>
+        rw [hrs] at hex
+        simp only at hex
+        subst hex
+        rfl
+    · simp
+    · cases o.reverse <;> rfl
+
 end DFA
 end AV
